@@ -5462,3 +5462,19 @@ M('C11', 'verify-message-inline-genexp-raw', PGP, _MSG_LOOP, _MSG_INLINE % 'mess
 M('C02', 'verify-message-inline-genexp-raw', PGP, _MSG_LOOP, _MSG_INLINE % 'message', 'C02.7')
 M('C17', 'is-bad-helper-negated', TY, "        yield from (\n            sigsub\n            for sigsub in self._subjects\n            if sigsub.issues and sigsub.issues.causes_signature_verify_to_fail\n        )\n",
   "        yield from (sigsub for sigsub in self._subjects if self._is_bad(sigsub))\n\n    @staticmethod\n    def _is_bad(sigsub):\n        return sigsub.issues and not sigsub.issues.causes_signature_verify_to_fail\n", 'C17.2')
+
+
+# =============================================================================================== wave 7 (seeded/Cxx-w6mut*, twins/Cxx-ref20..21)
+# the six first-contact misses of wave 7 as corpus mutants of the rules written for them, and the twins that were noisy at first contact
+_MD('C02', 'held-out-w6mut1-blank-removal-without-cr', '../../seeded/C02-w6mut1/patch.diff', 'C02.7')
+_MD('C11', 'held-out-C02-w6mut1-blank-removal-without-cr', '../../seeded/C02-w6mut1/patch.diff', 'C11.4')
+_MD('C03', 'held-out-w6mut1-unknown-cipher-keyerror', '../../seeded/C03-w6mut1/patch.diff', 'C03.4')
+_MD('C13', 'held-out-C03-w6mut1-unknown-cipher-keyerror', '../../seeded/C03-w6mut1/patch.diff', 'C13.1')
+_MD('C10', 'held-out-w6mut2-dash-unescape-none-is-empty', '../../seeded/C10-w6mut2/patch.diff', 'C10.5')
+_MD('C16', 'held-out-w6mut1-unlock-iterator-exhausted', '../../seeded/C16-w6mut1/patch.diff', 'C16.7')
+_MD('C16', 'held-out-w6mut2-selfsig-memoised', '../../seeded/C16-w6mut2/patch.diff', 'C16.5')
+_MD('C20', 'held-out-w6mut2-literal-hlen-counts-characters', '../../seeded/C20-w6mut2/patch.diff', 'C20.7')
+M('C09', 'mpi-zero-written-with-one-octet', 'pgpy/packet/types.py', "int(self).to_bytes(self.byte_length(), 'big')", "int(self).to_bytes(max(self.byte_length(), 1), 'big')", 'C09.3')
+for _p, _t in (('C13', 'C13-ref21'), ('C02', 'C05-ref21'), ('C09', 'C09-ref21'), ('C01', 'C09-ref21'), ('C10', 'C11-ref21'), ('C11', 'C11-ref21'),
+               ('C03', 'C03-ref21'), ('C04', 'C04-ref21'), ('C16', 'C16-ref21'), ('C20', 'C20-ref21')):
+    TW(_p, 'twin-w7-%s' % _t, _t)
